@@ -3,12 +3,15 @@
  * hooked_overlay(ctx): build/overlay-netdrive.json = the shared overlay + a copy of the CURRENT agreement/service.go in
    which Service.mainLoop calls the two hook variables of harness/agreement/zz_verif_netdrive_hook.go.  The copy is
    regenerated from the tree on every run; a missing anchor is a tie failure (reported, never skipped).
- * run_harness(ctx, env): runs TestVerifNetDrive and returns the paths of its four output files.
- * parse_trace / parse_log: readers for the abstract trace (c01abs grammar) and the concrete log.
+ * build_test_binary(ctx) → path of the compiled agreement test binary (go test -c with the hooked overlay);
+   run_shard(ctx, exe, name, env, timeout, test=…) → {"name","dir","rc","out"}: one harness process, outputs in ctx.work/<name>/;
+   run_range(ctx, exe, name, lo, hi, env, timeout): schedules lo..hi-1, resumed after a schedule that killed the process.
+ * accept(ctx, shard) → [(schedule id, round, [(trace line, c01abs verdict)])];  schedules_of(shard) → {id: [header, decisions…]};
+   logs_of(shard) → {id: [concrete log lines without the S<id> prefix]};  kv(line) → dict of the k=v fields of a log line.
 
 Stand-alone:  python3 checks/netdrive.py   prints the path of the hooked overlay (for manual `go test -overlay …` runs).
 """
-import json, os, re, sys
+import json, os, re, shutil, sys
 
 sys.path.insert(0, os.path.join(os.path.dirname(os.path.abspath(__file__)), "..", "lib"))
 import overlay as _ov
@@ -61,17 +64,6 @@ def hooked_overlay(ctx=None, base_path=None):
 FILES = ("netdrive.trace", "netdrive.log", "netdrive.sched", "netdrive.summary")
 
 
-def run_harness(ctx, env=None, timeout=3000, test="TestVerifNetDrive"):
-    """Runs the harness; returns (rc, out, {name: path})."""
-    for f in FILES:
-        try:
-            os.remove(os.path.join(ctx.work, f))
-        except FileNotFoundError:
-            pass
-    rc, out = ctx.go_test("./agreement", test, env=env or {}, timeout=timeout)
-    return rc, out, {f: os.path.join(ctx.work, f) for f in FILES}
-
-
 def read_lines(path):
     if not os.path.exists(path):
         return []
@@ -79,16 +71,92 @@ def read_lines(path):
         return f.read().splitlines()
 
 
-def split_schedules(lines, marker):
-    """{schedule id: [lines]} for files in which a schedule starts at a line `<marker> <id> …`."""
+# ----------------------------------------------------------------------------- running
+def build_test_binary(ctx):
+    exe = os.path.join(ctx.work, "agreement.test")
+    rc, out = ctx.sh(["go", "test", "-c", "-overlay", ctx.ovl, "-tags", "verif", "-vet=off", "-o", exe, "./agreement"],
+                     cwd=_ov.REPO, timeout=2400)
+    if rc != 0 or not os.path.exists(exe):
+        ctx.tie_failures.append("NetDrive harness does not build against the current tree: " + out[-800:])
+        return None
+    return exe
+
+
+def run_shard(ctx, exe, name, env, timeout, test="TestVerifNetDrive"):
+    """one harness process; its four output files land in <ctx.work>/<name>/.  env: VERIF_REPLAY=<sched file> | VERIF_ND_FROM /
+    VERIF_ND_SCHEDULES (id range) | VERIF_ND_PROFILE, VERIF_ND_NODES, VERIF_ND_BYZ, VERIF_ND_STEPS, VERIF_ND_ROUNDS, VERIF_ND_NODOUBLE"""
+    out_dir = os.path.join(ctx.work, name)
+    shutil.rmtree(out_dir, ignore_errors=True)
+    os.makedirs(out_dir)
+    e = {"VERIF_OUT": out_dir, "VERIF_SEED": str(ctx.seed), "VERIF_TIER": ctx.tier}
+    e.update(env)
+    rc, out = ctx.sh([exe, "-test.run", "^%s$" % test, "-test.count=1", "-test.timeout", "%ds" % timeout],
+                     cwd=os.path.join(_ov.REPO, "agreement"), env=e, timeout=timeout + 60)
+    return {"name": name, "dir": out_dir, "rc": rc, "out": out}
+
+
+def run_range(ctx, exe, name, lo, hi, env, timeout):
+    """schedules lo..hi-1; a harness process that dies (panic inside a Service goroutine) is resumed after the schedule it died in"""
+    shards, k = [], 0
+    while lo < hi and k < 8:
+        e = dict(env)
+        e.update({"VERIF_ND_FROM": str(lo), "VERIF_ND_SCHEDULES": str(hi)})
+        sh = run_shard(ctx, exe, "%s-%d" % (name, k) if k else name, e, timeout)
+        shards.append(sh)
+        if sh["rc"] == 0:
+            break
+        done = schedules_of(sh)
+        lo = (max(done) + 1) if done else hi
+        k += 1
+    return shards
+
+
+def accept(ctx, shard):
+    """runs c01abs on the shard's trace; returns [(schedule id, round, [(line, verdict)])]"""
+    tr = os.path.join(shard["dir"], "netdrive.trace")
+    if not os.path.exists(tr):
+        return []
+    outp = os.path.join(shard["dir"], "trace.out")
+    rc = ctx.driver("c01abs", [], tr, outp, timeout=3000)
+    lines, verdicts = ctx.read_lines(tr), ctx.read_lines(outp)
+    if rc != 0 or len(lines) != len(verdicts):
+        ctx.tie_failures.append("acceptor c01abs failed on %s (rc=%d, %d lines, %d answers)" % (tr, rc, len(lines), len(verdicts)))
+        return []
+    hist, cur = [], None
+    for l, v in zip(lines, verdicts):
+        m = re.match(r"# schedule (\d+) round (\d+)", l)
+        if m:
+            cur = (int(m.group(1)), int(m.group(2)), [])
+            hist.append(cur)
+        elif cur is not None:
+            cur[2].append((l, v))
+    return hist
+
+
+def schedules_of(shard):
+    """{id: [header + decision lines]}"""
     res, cur = {}, None
-    for l in lines:
-        if l.startswith(marker + " "):
-            cur = l.split()[1] if marker != "#" else (l.split()[2] if len(l.split()) > 2 and l.split()[1] == "schedule" else cur)
-            res.setdefault(cur, [])
+    for l in read_lines(os.path.join(shard["dir"], "netdrive.sched")):
+        if l.startswith("schedule "):
+            cur = int(l.split()[1])
+            res[cur] = []
         if cur is not None:
             res[cur].append(l)
     return res
+
+
+def logs_of(shard):
+    res = {}
+    for l in read_lines(os.path.join(shard["dir"], "netdrive.log")):
+        m = re.match(r"S(\d+) (.*)", l)
+        if m:
+            res.setdefault(int(m.group(1)), []).append(m.group(2))
+    return res
+
+
+def kv(line):
+    return dict(x.split("=", 1) for x in line.split() if "=" in x)
+
 
 
 if __name__ == "__main__":
